@@ -14,7 +14,7 @@ package main
 //
 // Output tokens (both families):
 //
-//	exts=<d;d;...>   uconn.Extensions after BuildHandshakeState, before the handshake (describeExtFull)
+//	exts=<d;d;...>   uconn.Extensions after BuildHandshakeState, before the handshake (describeExtFull_c17)
 //	pol=<none|boring|other>   policy of the padding extension(s)
 //	psk=<0|1>        hello.PskIdentities non-empty
 //	hcurves=<list>   Hello.SupportedCurves (differs from the wire only when the spec has no supported_groups)
@@ -39,7 +39,7 @@ import (
 	tls "github.com/refraction-networking/utls"
 )
 
-type rawExt struct {
+type rawExt_c17 struct {
 	T uint16
 	B []byte
 }
@@ -50,7 +50,7 @@ type shMsg struct {
 	Sid    []byte
 	Suite  uint16
 	Comp   uint8
-	Exts   []rawExt
+	Exts   []rawExt_c17
 }
 
 var hrrRandom = unhex("cf21ad74e59a6111be1d8c021e65b891c2a211167abb8c5e079e09e2c8a8339c")
@@ -94,7 +94,7 @@ func parseSH(msg []byte) (*shMsg, bool) {
 		if len(b) < 4+l {
 			return nil, false
 		}
-		m.Exts = append(m.Exts, rawExt{t, append([]byte(nil), b[4:4+l]...)})
+		m.Exts = append(m.Exts, rawExt_c17{t, append([]byte(nil), b[4:4+l]...)})
 		b = b[4+l:]
 	}
 	return m, true
@@ -119,7 +119,7 @@ func (m *shMsg) bytes() []byte {
 func (m *shMsg) isHRR() bool { return bytes.Equal(m.Random, hrrRandom) }
 
 func (m *shMsg) drop(t uint16) {
-	var out []rawExt
+	var out []rawExt_c17
 	for _, e := range m.Exts {
 		if e.T != t {
 			out = append(out, e)
@@ -135,7 +135,7 @@ func (m *shMsg) set(t uint16, b []byte) {
 			return
 		}
 	}
-	m.Exts = append(m.Exts, rawExt{t, b})
+	m.Exts = append(m.Exts, rawExt_c17{t, b})
 }
 
 func (m *shMsg) get(t uint16) ([]byte, bool) {
@@ -244,8 +244,8 @@ func paddingPolicy(e *tls.UtlsPaddingExtension) string {
 	return "boring"
 }
 
-// describeExtFull: describeExt, with the frozen bytes of GREASE ECH and a generic fallback.
-func describeExtFull(e tls.TLSExtension) string {
+// describeExtFull_c17: describeExt, with the frozen bytes of GREASE ECH and a generic fallback.
+func describeExtFull_c17(e tls.TLSExtension) string {
 	switch x := e.(type) {
 	case *tls.GREASEEncryptedClientHelloExtension:
 		x.Len() // init()
@@ -269,7 +269,7 @@ func describeExts(u *tls.UConn) (string, string) {
 	var ds []string
 	pol := "none"
 	for _, e := range u.Extensions {
-		ds = append(ds, describeExtFull(e))
+		ds = append(ds, describeExtFull_c17(e))
 		if p, ok := e.(*tls.UtlsPaddingExtension); ok {
 			pol = paddingPolicy(p)
 		}
@@ -622,9 +622,9 @@ func baseHRR(ch []byte, g uint16) *shMsg {
 			break
 		}
 	}
-	m.Exts = []rawExt{{43, []byte{3, 4}}}
+	m.Exts = []rawExt_c17{{43, []byte{3, 4}}}
 	if g != 0 {
-		m.Exts = append(m.Exts, rawExt{51, []byte{byte(g >> 8), byte(g)}})
+		m.Exts = append(m.Exts, rawExt_c17{51, []byte{byte(g >> 8), byte(g)}})
 	}
 	return m
 }
@@ -910,7 +910,7 @@ func execScript(in KV) string {
 			if h.Suite == 0x1301 {
 				m.Suite = 0x1303
 			}
-			m.Exts = []rawExt{{43, []byte{3, 4}}, {51, append([]byte{byte(g >> 8), byte(g), 0, 65}, make([]byte, 65)...)}}
+			m.Exts = []rawExt_c17{{43, []byte{3, 4}}, {51, append([]byte{byte(g >> 8), byte(g), 0, 65}, make([]byte, 65)...)}}
 			return m.bytes()
 		}
 	case "hrr2":
